@@ -168,12 +168,15 @@ func (c ImportCase) NumImports() int {
 // EnumCases lists the cases of a tier.
 //
 // quick:    <=1 deviation.  Deviations are enumerated under the set's default interleaving; a
-//           rendering with a deviation is imported as one file and cut at every position from
-//           just before the first to just after the second packet the deviation is about
-//           (imported one by one).  Default
-//           renderings: every interleaving, every cut, one by one and in one call, plus raw link.
+//
+//	rendering with a deviation is imported as one file and cut at every position from
+//	just before the first to just after the second packet the deviation is about
+//	(imported one by one).  Default
+//	renderings: every interleaving, every cut, one by one and in one call, plus raw link.
+//
 // thorough: <=1 deviation under every interleaving x every cut x {one by one, one call};
-//           2 deviations under the default interleaving as one file.
+//
+//	2 deviations under the default interleaving as one file.
 func EnumCases(tier string) (cases []ImportCase, rule string) {
 	thorough := tier == "thorough"
 	if thorough {
